@@ -21,7 +21,7 @@ Theorem T11_gen_play_one_game_eq : forall cfg s, 0 <= sp_size cfg <= 8 -> kids_o
   SelfPlayGen.play_one_game cfg s = embed_outcome (SelfPlay.play_one_game cfg (map answer_of s)).
 Proof. exact gen_play_one_game_eq. Qed.
 (* the `while True` loop on fuel: any fuel above ply_limit - ply + 1 is enough; max(ply_limit + 2, 1) is what is given *)
-Theorem T11_gen_play_loop : forall cfg fuel pos s log,
+Theorem T11_gen_play_loop : forall cfg fuel pos s log, road_ok pos ->
   kids_ok cfg pos s -> (Z.to_nat (sp_ply_limit cfg - ply pos + 1) < fuel)%nat ->
   res_map st_log (SelfPlayGen.play_one_game_while1 fuel cfg s pos log) =
   match play_loop cfg pos (map answer_of s) with
@@ -102,3 +102,34 @@ Theorem T11_gen_labels_correct : forall tr,
      (to_move p = w -> nth_error (SelfPlayGen.results tr) i = Some (inject_Z 1)) /\
      (to_move p = flip w -> nth_error (SelfPlayGen.results tr) i = Some (inject_Z (-1)))).
 Proof. exact gen_labels_correct. Qed.
+
+(* ---- the hypothesis kids_ok discharged for the real engine (proofs/ComposeSelfPlayGen.v; C08's invariant) ---- *)
+From TV Require model.Mcts proofs.MctsProofs proofs.ComposeSelfPlay proofs.ComposeSelfPlayGen.
+(* `otree_of_tree solve C t pick`: the oracle answer read off a search tree of model/Mcts.v - children as
+   (move, position stored in the child), reported policy, value, simulations, v_zero, sampled index.
+   `engine_run_ok cutoff solve C cfg pos ts`: along the run, every consumed tree is Good (C08), expanded, grown for the
+   position it answers (n_pos t = that position) and its sampled index is >= 0; the next tree answers the position
+   stored in the picked child. *)
+Theorem T11_engine_kids_ok : forall cutoff solve C cfg ts pos,
+  ComposeSelfPlayGen.engine_run_ok cutoff solve C cfg pos ts ->
+  kids_ok cfg pos (ComposeSelfPlayGen.engine_stream solve C ts).
+Proof. exact ComposeSelfPlayGen.engine_kids_ok. Qed.
+(* END TO END: the play_one_game translated from the source, run on the answers of a real engine, is the model's game;
+   and when it returns a transcript, every recorded candidate is legal, candidates are pairwise distinct, each next
+   position is the one stored in the chosen child AND the result of applying the picked candidate, the game starts at
+   the initial position with ply i at index i *)
+Theorem T11_gen_real_engine : forall cutoff solve C cfg ts, 0 <= sp_size cfg <= 8 ->
+  ComposeSelfPlayGen.engine_run_ok cutoff solve C cfg (start cfg) ts ->
+  let s := map (fun tp => ComposeSelfPlay.answer_of_tree solve C (fst tp) (snd tp)) ts in
+  SelfPlayGen.play_one_game cfg (ComposeSelfPlayGen.engine_stream solve C ts) = embed_outcome (SelfPlay.play_one_game cfg s) /\
+  forall tr, SelfPlayGen.play_one_game cfg (ComposeSelfPlayGen.engine_stream solve C ts) = Ok tr ->
+    exists e f, SelfPlay.play_one_game cfg s = Done tr e f /\
+    (forall i p ms m, nth_error (t_positions tr) i = Some p -> nth_error (t_moves tr) i = Some ms ->
+       In m ms -> exists q, move p m = Some q) /\
+    (forall i ms, nth_error (t_moves tr) i = Some ms -> NoDup ms) /\
+    (forall i p q, nth_error (t_positions tr) i = Some p -> nth_error (t_positions tr) (S i) = Some q ->
+       exists t pk ks k m, nth_error s i = Some (ComposeSelfPlay.answer_of_tree solve C t pk) /\ Mcts.n_pos t = p /\
+         Mcts.n_kids t = Some ks /\ nthz ks pk = Some k /\ Mcts.n_move k = Some m /\ Mcts.n_pos k = q /\ move p m = Some q) /\
+    (forall p0, nth_error (t_positions tr) 0 = Some p0 -> p0 = start cfg) /\
+    (forall i p, nth_error (t_positions tr) i = Some p -> ply p = Z.of_nat i).
+Proof. exact ComposeSelfPlayGen.gen_real_engine. Qed.
